@@ -322,6 +322,14 @@ theorem gram_psd_closed_tree {c : Cov ℝ} (h : PSD.PSDTree (fun _ => False) c) 
     (toM (gram c X X)).PosSemidef :=
   PSD.gram_psd (PSD.psdTree_psdOn_closed h d) X
 
+/-- The time-aware kernel `compute_cov_func(curry, ls, ls_time)` — state kernel on all but the last column times time
+    kernel on the last — is positive semi-definite for the ExpQuad family: every Gram matrix on (state, time) points. -/
+theorem timeCov_expquad_psd {ls lsTime : ℝ} (hls : 0 < ls) (hlt : 0 < lsTime) {n d : Nat} (X : Mat ℝ n d) :
+    (toM (gram (timeCov Cov.expquad ls lsTime) X X)).PosSemidef := by
+  apply gram_psd_closed_tree
+  unfold timeCov
+  exact .mul (.expquad hls) (.expquad hlt)
+
 /-! ### non-vacuity -/
 
 example : PSD.PSDTree (fun _ => False)
